@@ -15,6 +15,24 @@ from .. import idroles
 PID = "C06"
 
 
+def feeding_read_block(v, R, read, operand):
+    """Block of the hypercube read whose value this operand is — possibly through a unary conversion (`read(..).to_f64()`, a clone):
+    still the read's value for the purpose of naming roles and counting read sites; what the conversion does to a property is for the
+    rules that own it (C19-a, C06-d)."""
+    r = v.root(operand)
+    tt = v.call_term(r)
+    for _ in range(3):
+        if tt is not None and R.body_of_callee(tt.get("callee")) is not read and (tt.get("callee") or {}).get("name") in ("to_f64", "clone", "into", "from") \
+                and tt.get("args"):
+            r = v.root(tt["args"][0])
+            tt = v.call_term(r)
+        else:
+            break
+    if tt is not None and R.body_of_callee(tt.get("callee")) is read and r.kind == "call":
+        return r.base[1]
+    return None
+
+
 def find_scan(ctx, R):
     """Role `scan`: the callee of the sector routine that receives a read-site value and returns a tuple."""
     sector = find_sector(ctx, R)
@@ -25,9 +43,7 @@ def find_scan(ctx, R):
         if cb is read:
             continue
         for ai, a in enumerate(t["args"]):
-            r = v.root(a)
-            tt = v.call_term(r)
-            if tt is not None and R.body_of_callee(tt.get("callee")) is read:
+            if feeding_read_block(v, R, read, a) is not None:
                 cands.append((bi, t, cb, ai))
     if len(cands) != 1:
         from ..roles import calls_body
